@@ -2,7 +2,7 @@
    The theorems are about the IMAGE of each decoder on ARBITRARY byte strings (not only the library's own output):
    whatever a decoder returns, if Marshal succeeds on it the new bytes decode to the same value. *)
 From RTCP Require Import Proofs.Tactics Model.Header Model.Reports Model.Sdes Model.ByeApp Model.Feedback Model.Twcc Model.Ccfb Model.Remb Model.Xr
-  Model.Packet Spec.Enc Spec.XrSpec Spec.Laws Proofs.Image1 Proofs.Image2 Proofs.Image3.
+  Model.Packet Spec.Enc Spec.XrSpec Spec.Laws Proofs.Dgram Proofs.Image1 Proofs.Image2 Proofs.Image3 Proofs.Reencode.
 Local Open Scope N_scope.
 
 Theorem C09_SenderReport : forall b s, SR_unmarshal b = Ok s -> len b mod 4 = 0 -> forall b', SR_marshal s = Ok b' -> SR_unmarshal b' = Ok s.
@@ -67,3 +67,28 @@ Theorem C09_ExtendedReport : forall b x, XR_unmarshal b = Ok x -> len b mod 4 = 
   exists x', XR_unmarshal b' = Ok x' /\ map abs_block (xr_blocks x') = map abs_block (xr_blocks x) /\ xr_sender x' = xr_sender x.
 Proof. exact XR_dec_enc_dec. Qed.
 Print Assumptions C09_ExtendedReport.
+
+(* ---- the statement of the property, at datagram level, for EVERY byte string accepted by Unmarshal ---- *)
+(* marshalling the returned packets never panics (and never runs out of fuel) *)
+Theorem C09_marshal_of_decoded_never_panics : forall b ps, Unmarshal b = Ok ps -> Marshal ps <> Panic /\ Marshal ps <> Fuel.
+Proof. exact datagram_reencode_no_panic. Qed.
+Print Assumptions C09_marshal_of_decoded_never_panics.
+
+(* whenever it succeeds the new bytes are accepted again and decode to an equal packet list (ExtendedReport: same sender, same typed
+   blocks, same canonical form), under the side conditions stable_pkt names per frame: TransportLayerCC with a consistent header
+   (the property's own hypothesis), REMB unless mantissa 0 with exponent >= 58 (F16), FIR with at least one entry (F20),
+   CCFB frames up to 262137 octets (F18); each of them is shown necessary by a witness in Proofs/Reencode.v *)
+Theorem C09_decode_encode_decode : forall b ps, Unmarshal b = Ok ps -> stable_dgram b ps ->
+  forall b', Marshal ps = Ok b' -> exists ps', Unmarshal b' = Ok ps' /\ Forall2 pkt_equiv ps ps'.
+Proof. exact datagram_reencode. Qed.
+Print Assumptions C09_decode_encode_decode.
+
+Theorem C09_one_frame : forall f p, framed16 f -> decode_frame f = Ok p -> stable_pkt f p ->
+  forall b', marshal_packet p = Ok b' -> exists p', decode_frame b' = Ok p' /\ framed16 b' /\ pkt_equiv p p'.
+Proof. exact frame_reencode. Qed.
+Print Assumptions C09_one_frame.
+
+(* SliceLossIndication never comes out of the datagram decoder (finding F5), so it needs no clause here *)
+Theorem C09_datagram_never_yields_sli : forall f x, decode_frame f <> Ok (PSLI x).
+Proof. exact decode_frame_never_sli. Qed.
+Print Assumptions C09_datagram_never_yields_sli.
